@@ -31,7 +31,7 @@ S = Suite(
     bound="zm 1..100 m, z0/zm 1e-4..0.2, |U| 0.5..15 m/s in any direction incl. axis-aligned, "
           "|L| 5..1e9 m of both signs with |zm/L| <= 20 and ln(zm/z0)+psi >= 0.5, n 1..40, Pr in "
           "{0.7,1,1.3}, domain height default (also 1.5zm/3zm when n >= 4), default stretch; x = z/L in "
-          "+-[1e-12, 50] for psi/phi; L = inf (exact neutrality), array-valued tke, "
+          "+-[1e-12, 50] for psi/phi; L = +-inf (exact neutrality) in a few profile cases; array-valued tke, "
           "domain_height <= zm not examined; custom stretch 2.5 / 3 / 4 zm with the default domain height (n >= 4); call histories: a base forcing followed by 10 near-twins "
           "differing in one argument (z0 by 0.2 % / 2e-5, zm, L, wind, n, Pr, closure, given quantity)",
     rule="1e-9 relative for wind at z[n] and K; 1e-12*zm for z[0], z[n]; 1e-10 for the z0<->ustar "
@@ -332,6 +332,10 @@ def generate(tier, rng):
                 # domain height at its default
                 yield "profiles", dict(closure=closure, n=n, zm=zm, z0=z0, um=um, vm=vm, mol=mol, prsc=1.0, dh_factor=0,
                                        given=("z0", "ustar")[k % 2], stretch_factor=(2.5, 3.0, 4.0)[(k // 6) % 3])
+        for k in range(2 if q else 10):      # exact neutrality: L = +inf / -inf
+            zm, z0, um, vm, mol = _consistent(rng)
+            yield "profiles", dict(closure=closure, n=rng.choice([2, 5, 16]), zm=zm, z0=z0, um=um, vm=vm, mol=(float("inf"), float("-inf"))[k % 2],
+                                   prsc=1.0, dh_factor=0, given=("ustar", "z0")[k % 2])
         for k in range(6 if q else 40):
             zm, z0, um, vm, mol = _consistent(rng)
             n = rng.choice([2, 3, 5, 8, 16])
